@@ -306,13 +306,13 @@ Proof.
     eapply same_tags_closed; [|exact HTc]. intros g. destruct (G1 g) as [_ [_ [C _]]]. exact C.
   - destruct (assign_fields st) as [s1 e1] eqn:E. inversion H; subst s1 r. clear H.
     destruct HI as [W HL]. destruct (assign_fields_inv _ _ _ _ W HL E) as [_ [B [_ [_ [_ [[_ [S2 _]] _]]]]]].
-    destruct HT as [HA HTc]. rewrite B. split; [exact HA|].
+    destruct HT as [HA HTc]. unfold TInv. rewrite B. split; [exact HA|].
     eapply same_tags_closed; [|exact HTc]. intros g. destruct (S2 g) as [_ C]. exact C.
 Qed.
 
 Lemma reachable_tags_closed st : reachable st -> tags_closed (s_tree st) (s_store st).
 Proof.
-  intros R. assert (TInv st); [|tauto]. induction R.
+  intros R. assert (HT : TInv st); [|exact (proj2 HT)]. induction R.
   - split.
     + intros e [].
     + intros e e' x [].
